@@ -25,7 +25,7 @@ func Alphabet(p int) []*Def {
 	add("const-int", &Def{Kind: Const, Name: n("ci"), CType: "int32", CText: "42", CValue: "42"})
 	add("import", &Def{Kind: Import, Path: n("other") + ".bop"})
 	add("enum-typed-u8", &Def{Kind: Enum, Name: n("Tu"), Base: "uint8", Members: []Member{{Name: "A", Expr: "0x01", U: 1}, {Name: "B", Expr: "255", U: 255}}})
-	add("enum-typed-i16", &Def{Kind: Enum, Name: n("Ti"), Base: "int16", Members: []Member{{Name: "Neg", Expr: "-5", S: -5}, {Name: "Z", Expr: "0", S: 0}, {Name: "Min", Expr: "-32768", S: -32768}}})
+	add("enum-typed-i16", &Def{Kind: Enum, Name: n("Ti"), Base: "int16", Members: []Member{{Name: "Neg", Expr: "-5", S: -5}, {Name: "Z", Expr: "0", S: 0}, {Name: "Min", Expr: "-32768", S: -32768}, {Name: "NegHex", Expr: "-0x10", S: -16}, {Name: "Hex", Expr: "0x7F", S: 127}}})
 	add("enum-typed-i64", &Def{Kind: Enum, Name: n("Tl"), Base: "int64", Members: []Member{{Name: "Min", Expr: "-9223372036854775808", S: math.MinInt64}, {Name: "Max", Expr: "9223372036854775807", S: math.MaxInt64}}})
 	add("enum-typed-u64", &Def{Kind: Enum, Name: n("Tm"), Base: "uint64", Members: []Member{{Name: "Max", Expr: "18446744073709551615", U: math.MaxUint64}, {Name: "Hex", Expr: "0xFFFFFFFFFFFFFFFE", U: math.MaxUint64 - 1}}})
 	add("flags", &Def{Kind: Enum, Name: n("Fl"), Flags: true, Members: []Member{
